@@ -1,4 +1,4 @@
-(* C14 property theorems (statements only; proofs in C14/{Combine,Contract,Sched,Tree,Final}.v).
+(* C14 property theorems (statements only; proofs in C14/{Combine,Contract,Sched,Tree,Final,Gauge}.v).
    K is ANY commutative ring (so Z, Q, R, C, ...), F ANY field; a tree is a rooted tensor tree
    (Model.ttree) - a hyper-index is a copy-tensor node (last two theorems). *)
 From Coq Require Import ZArith Arith List Bool Ring Field.
